@@ -157,7 +157,9 @@ class DumpZone(Op):
         n = 1200 * boost if tier == "quick" else 5000 * boost
         for _ in range(n):
             m = gens.mode(rng)
-            t = T.gen_tp(rng, m)
+            # (a third of the points lie within days of a year end, where the week year, the ordinal year and the
+            #  calendar year of one local date differ)
+            t = T.gen_year_edge_tp(rng, m) if rng.random() < 0.33 else T.gen_tp(rng, m)
             if not 0 <= t[1] <= 9998 or t[1] < 1:
                 t = (t[0], rng.randint(1, 9998)) + t[2:]
                 if not T.valid(m, t):
@@ -213,12 +215,36 @@ class DumpZone(Op):
     def line(self, a):
         return "dumpzone %s %s %s" % (a[0], T.tp_str(a[1]), a[2])
 
+    sibling_rate = 0.4
+    _dumper = None
+    LAYOUTS = {"CCYYMMDD": "c", "CCYY-MM-DD": "c", "CCYYDDD": "o", "CCYY-DDD": "o", "CCYYWwwD": "w", "CCYY-Www-D": "w"}
+
+    def sibling(self, a, rng):
+        """The same instant again through the same long-lived dumper and the same literal zone, written in another
+        date representation and dumped in another date layout."""
+        m, t, fmt, h, mi = a
+        out = []
+        for layout in sorted(self.LAYOUTS, key=len, reverse=True):
+            if fmt.startswith(layout):
+                rest = fmt[len(layout):]
+                basic = "-" not in layout
+                for other in ("CCYYMMDD", "CCYYDDD", "CCYYWwwD") if basic else ("CCYY-MM-DD", "CCYY-DDD", "CCYY-Www-D"):
+                    if other != layout:
+                        rep = rng.choice([r for r in "cow" if r != t[0]])
+                        t2 = T.tp_from_inst(m, T.inst(m, t), rep, t[7], t[8])
+                        if 1 <= t2[1] <= 9998:
+                            out.append((m, t2, other + rest, h, mi))
+                break
+        return out
+
     def impl(self, a):
         from metomi.isodatetime.dumpers import TimePointDumper
         from metomi.isodatetime.parsers import TimePointParser
         set_mode(a[0])
         p = T.mk_tp(a[1])
-        text = TimePointDumper().dump(p, a[2])
+        if DumpZone._dumper is None:
+            DumpZone._dumper = TimePointDumper()       # one dumper for the whole run, as str() uses
+        text = DumpZone._dumper.dump(p, a[2])
         q = TimePointParser().parse(text)
         flags = ""
         if not (q == p):
